@@ -41,6 +41,25 @@ func init() {
 		_, _, bad := c09FaultyCloseCase(explore.NewLocalCtx("C09"), base, fmt.Sprint(rep["base"]), fmt.Sprint(rep["cfg"]), pre, int(numField(rep, "fault_at")), recMemo{})
 		return bad, nil
 	}
+	replayers["failcompact09"] = func(rep map[string]interface{}) (string, error) {
+		base, err := baseOf(rep)
+		if err != nil {
+			return "", err
+		}
+		pre, err := parseWord(rep["pre"])
+		if err != nil {
+			return "", err
+		}
+		_, bad := c09AfterFailedCompactCase(explore.NewLocalCtx("C09"), base, fmt.Sprint(rep["base"]), fmt.Sprint(rep["cfg"]), pre, int(numField(rep, "fault_at")), recMemo{})
+		return bad, nil
+	}
+	replayers["backupcopy09"] = func(rep map[string]interface{}) (string, error) {
+		base, err := baseOf(rep)
+		if err != nil {
+			return "", err
+		}
+		return c09BackupCopyCase(explore.NewLocalCtx("C09"), base, fmt.Sprint(rep["base"]), fmt.Sprint(rep["cfg"]), boolField(rep, "write")), nil
+	}
 	replayers["failbackup12"] = func(rep map[string]interface{}) (string, error) {
 		base, err := baseOf(rep)
 		if err != nil {
